@@ -128,6 +128,32 @@ def dot_of(ex, st, node, Q, R):
     return D
 
 
+TRANSPOSED = {}
+
+
+def transposed(X):
+    """the transpose of a matrix version, with the history (origin) mirrored, so that the Gram rules for columns also give
+    the row Gram matrix  sum_j X[c, j] cj(X[d, j])  (the right factor of the SVD has orthonormal rows)"""
+    if id(X) in TRANSPOSED:
+        return TRANSPOSED[id(X)][0]
+    o = X.origin or ('?',)
+    if o[0] == 'view':
+        _, base, f0, f1, how = o
+        origin = ('view', transposed(base), f1, f0, [how[1], how[0]])
+    elif o[0] == 'store':
+        _, base, (c0, c1, o0, o1, key), v = o
+        vt = transposed(v) if getattr(v, 'is_sarr', False) else v
+        origin = ('store', transposed(base), (c1, c0, o1, o0, key), vt)
+    elif o[0] == 'lapack':
+        info = o[1]
+        origin = ('lapack', dict(info, p=info['r'], r=info['p'], transposed=True))
+    else:
+        origin = o
+    T = SArr((X.shape[1], X.shape[0]), X.kind, lambda i, j, X=X: X.nz(j, i), val=(lambda i, j, X=X: X.val(j, i)) if X.val is not None else None, origin=origin)
+    TRANSPOSED[id(X)] = (T, X)
+    return T
+
+
 GRAMS = {}
 CJ = z3.Function('cj', Rl, Rl)       # complex conjugation on ring elements: only cj(0) = 0 and cj(1) = 1 are used
 
@@ -201,6 +227,16 @@ def gram_of(ex, st, node, Q):
     return G
 
 
+def _conditional(out):
+    """a postcondition derived from the loop invariant is only as good as the invariant: if an invariant obligation of this run
+    is not discharged, the postconditions are reported as undecided"""
+    if any(v.kind == 'invariant' and v.status != 'discharged' for v in out):
+        for v in out:
+            if v.kind == 'ensures' and v.status == 'discharged':
+                v.status = 'undecided'; v.detail = 'follows from the loop invariant, which is not established on this tree'
+    return out
+
+
 def value_invariant(env, ex, st, node=None):
     k = env['#iter']
     Dn = zint(env['D']); q0 = env['q0']; q1 = env['q1']; qis = env['#qis']; A = env['A']
@@ -235,7 +271,7 @@ def run(fn='bond_ops.qr', kind='complex'):
     from . import smt
     smt.EXTERNAL[0] = True
     zqr.TRACK_VALUES[0] = True
-    DOTS.clear(); GRAMS.clear()
+    DOTS.clear(); GRAMS.clear(); TRANSPOSED.clear()
     try:
         return _run(fn, kind)
     finally:
@@ -327,4 +363,121 @@ def _run(fn, kind):
     for v in out:
         v.seconds = tot / max(1, len(out))
         v.confirm = ['qr']
-    return out
+    return _conditional(out)
+
+
+
+# ---------------------------------------------------------------------------------------------------------------
+# split_matrix_svd: isometry of both factors (u^H u = I, v v^H = I) through the block loop, the truncation gather and the
+# un-sorting permutations.  (The product / error identity of the truncated SVD stays with the bounded stand-in.)
+
+def svd_invariant(env, ex, st, node=None):
+    k = env['#iter']
+    Dn = zint(env['D']); q0 = env['q0']; q1 = env['q1']; qis = env['#qis']
+    u, v, qi = env.get('u'), env.get('v'), env.get('q')
+    if not (getattr(u, 'is_sarr', False) and getattr(v, 'is_sarr', False) and u.val is not None and v.val is not None and isinstance(qi, IArr)):
+        return z3.BoolVal(True)
+    m, n = zint(q0.n), zint(q1.n)
+    Gu = gram_of(ex, st, node, u)
+    Gv = gram_of(ex, st, node, transposed(v))
+    i, j, c, d = z3.Ints('i j c d')
+    return z3.And(
+        z3.ForAll([i, c], z3.Implies(c >= Dn, u.val(i, c) == 0)),
+        z3.ForAll([c, j], z3.Implies(c >= Dn, v.val(c, j) == 0)),
+        z3.ForAll([c, d], z3.Implies(z3.And(rng(c, Dn), rng(d, Dn)), Gu(c, d, 0, m) == z3.If(c == d, 1, 0))),
+        z3.ForAll([c, d], z3.Implies(z3.And(rng(c, Dn), rng(d, Dn)), Gv(c, d, 0, n) == z3.If(c == d, 1, 0))),
+        z3.ForAll([i, c], z3.Implies(u.val(i, c) != 0, u.nz(i, c))),
+        z3.ForAll([c, j], z3.Implies(v.val(c, j) != 0, v.nz(c, j))),
+        z3.ForAll([c], z3.Implies(rng(c, Dn), z3.And(k > 0, qi.a(c) <= qis.a(k - 1)))))
+
+
+def run_svd(fn='bond_ops.split_matrix_svd', kind='complex'):
+    from . import smt
+    smt.EXTERNAL[0] = True
+    zqr.TRACK_VALUES[0] = True
+    DOTS.clear(); GRAMS.clear(); TRANSPOSED.clear()
+    try:
+        return _run_svd(fn, kind)
+    finally:
+        zqr.TRACK_VALUES[0] = False
+        DOTS.clear(); GRAMS.clear(); TRANSPOSED.clear()
+
+
+def _run_svd(fn, kind):
+    out = []; t0 = time.time()
+    fnode = loader.function(fn)
+    m, n = z3.Ints('m n')
+    q0f, q1f = fi('q0_'), fi('q1_')
+    Q0, Q1 = IArr(q0f, m), IArr(q1f, n)
+    Aval = zqr.fresh_val('A')
+    A0 = SArr((m, n), kind, zqr.NZ, name='A0', val=Aval, origin=('input',))
+    i, j = z3.Ints('i j')
+    requires = [CJ(z3.RealVal(0)) == 0, CJ(z3.RealVal(1)) == 1, m >= 1, n >= 1,
+                z3.ForAll([i, j], z3.Implies(z3.And(rng(i, m), rng(j, n), zqr.NZ(i, j)), q0f(i) == q1f(j))),
+                z3.ForAll([i, j], z3.Implies(z3.Not(zqr.NZ(i, j)), Aval(i, j) == 0))]
+    solver = Solver()
+    def inv(env, ex_, st_):
+        return z3.And(zqr.block_invariant(dict(env), ex_, st_), svd_invariant(env, ex_, st_))
+    handler = make_loop_handler({'for qn in qis': inv})
+    ex = Exec(lib=dict(zqr.LIB_Q), calls={'retained_bond_indices': zqr.K_retained}, mode='Z', solver=solver, loop_handler=None, fname=fn)
+    def loop_handler(ex_, node, st_):
+        if isinstance(node, ast.For) and isinstance(node.target, ast.Name):
+            it = ex_.ev(node.iter, st_)
+            if isinstance(it, IArr):
+                st_.env['#qis'] = it
+        return handler(ex_, node, st_)
+    ex.loop_handler = loop_handler
+    ex.assume_asserts = {'A.ndim == 2', 'len(q0) == A.shape[0]', 'len(q1) == A.shape[1]', 'is_qsparse(A, [q0, -q1])'}
+    st = State({'A': A0, 'q0': Q0, 'q1': Q1, 'tol': z3.Real('tol'), '#sparse_assumed': True}, requires)
+    orig_name = ex.ev_Name
+    def ev_Name(e, st_):
+        v = orig_name(e, st_)
+        return v.arr.a(v.idx) if isinstance(v, ElemOf) else v
+    ex.ev_Name = ev_Name
+    try:
+        states = ex.block(fnode.body, [st])
+    except Refuted as e:
+        return [Verdict('values: executes', 'Z', 'undecided', str(e), time.time() - t0, fn, 'safety', 'z3')]
+    except Unsupported as e:
+        return [Verdict('values: executes', 'Z', 'undecided', f'outside fragment: {e}', time.time() - t0, fn, 'safety', 'z3')]
+    def report(obs, where=''):
+        for ob in obs:
+            if ob.kind in ('invariant', 'rule-premise'):
+                status = 'discharged' if ob.holds is True else 'undecided'
+                detail = ob.detail if ob.holds is not False else 'counter-model of a quantified query is not trusted: ' + ob.detail
+                out.append(Verdict(f'values: {ob.kind}@{where or ob.lineno}: {ob.text[:90]}', 'Z', status, detail, 0.0, fn, ob.kind, 'z3'))
+    report(ex.obligations)
+    finals = [s for s in states if s.done and s.raised is None and solver.feasible(s.pc)]
+    nob = len(ex.obligations)
+    resu = []; resv = []; can = []
+    class _N: lineno = 0
+    for s in finals:
+        try:
+            um, sv, vm, q = s.ret
+            if not (getattr(um, 'val', None) is not None and getattr(vm, 'val', None) is not None):
+                resu.append(None); resv.append(None); continue
+            if vm.origin and vm.origin[0] == 'zeros':
+                continue        # no common charge: the matrix is zero and only a product equal to zero is required (property C12)
+            Dret = zint(um.shape[1])
+            c_, d_ = z3.Ints('c_ d_')
+            Gu = gram_of(ex, s, _N, um)
+            Gv = gram_of(ex, s, _N, transposed(vm))
+            resu.append(solver.implied([p for p in s.pc if is_z(p)], z3.ForAll([c_, d_], z3.Implies(z3.And(rng(c_, Dret), rng(d_, Dret)), Gu(c_, d_, 0, m) == z3.If(c_ == d_, 1, 0))), final=True))
+            resv.append(solver.implied([p for p in s.pc if is_z(p)], z3.ForAll([c_, d_], z3.Implies(z3.And(rng(c_, Dret), rng(d_, Dret)), Gv(c_, d_, 0, n) == z3.If(c_ == d_, 1, 0))), final=True))
+            if s is finals[-1]:
+                r_, _ = check_unsat([p for p in s.pc if is_z(p)], timeout=8000, try_cvc5=False)
+                can.append(r_ == 'unsat')
+        except Exception as e:
+            resu.append(None); resv.append(None)
+    report(ex.obligations[nob:], 'return')
+    for nm, rs in (('left_factor_has_orthonormal_columns [u^H u = I', resu), ('right_factor_has_orthonormal_rows [v v^H = I', resv)):
+        status = 'discharged' if rs and all(r is True for r in rs) else 'undecided'
+        out.append(Verdict(f'{nm}, entry level, {len(rs)} return paths with a shared charge]', 'Z', status,
+                           'sum rules: vt/lemmas/Sums.lean; contract of np.linalg.svd assumed' if status == 'discharged' else f'per path: {rs}', 0, fn, 'ensures', 'z3'))
+    out.append(Verdict('factors_are_isometries', 'Z', 'canary-verified' if any(c is True for c in can) else 'canary-ok',
+                       'the facts derived by the sum rules are not contradictory', 0, fn, 'canary', 'z3'))
+    tot = time.time() - t0
+    for v in out:
+        v.seconds = tot / max(1, len(out))
+        v.confirm = ['split_matrix_svd']
+    return _conditional(out)
